@@ -2,7 +2,7 @@
 (* RtpsUdpTransportParticipantFactory::set_fragment_size (C38): accepts exactly 8..=65000,
    BadParameter otherwise, the previous setting is kept on error. *)
 EXTENDS Integers, TLC, Json
-CONSTANTS Values, MaxOps     \* Values: value classes; 2000000000 stands for usize::MAX
+CONSTANTS Values, MaxOps     \* Values: value classes; 2000000000 stands for usize::MAX, 2000000001 for 2^32 + 500
 VARIABLES cur, n, lastOp
 vars == <<cur, n, lastOp>>
 view == <<cur, n>>
